@@ -39,7 +39,7 @@ if '--design' in _sys.argv:
     applicable = [r for r in rows if r[2] not in ('—', 'not run')]
     own = [r for r in applicable if r[0].split('-')[0] in r[2].split(';')[0]]
     lines.append('')
-    lines.append('%d of %d applicable changes are caught by the quick tier of their own property\'s check (`seeded/<id>/result.json` holds exit codes, times and the first violation line; `VERIF_SEED=1`); m1/m2 = round 1, m3/m4 = round 2, m5/m6 = round 3, m7/m8 = round 4; a change listed as caught only by another property\'s check is marked so.' % (len(own), len(applicable)))
+    lines.append('%d of %d applicable changes are caught by the quick tier of their own property\'s check (`seeded/<id>/result.json` holds exit codes, times and the first violation line; `VERIF_SEED=1`); m1/m2 = round 1, m3/m4 = round 2, m5/m6 = round 3, m7/m8 = round 4, m9/m10 = round 5 (round 6 for C04, C05, C08, C09, C10, C18, C19), m11/m12 = round 7; a change listed as caught only by another property\'s check is marked so.' % (len(own), len(applicable)))
     p = V + '/DESIGN.md'
     s = open(p).read()
     a = s.index('<!-- SEED_TABLE_BEGIN -->') + len('<!-- SEED_TABLE_BEGIN -->\n')
